@@ -99,29 +99,25 @@ def check(chk, repo):
     ws, scomps = competitions_of(repo, "SupervisedOPF", "fit", 2)
     scomp = scomps[-1]
 
-    def seed_start(wk, c):
-        ins = [e for e in wk.events if e.kind == "call" and e.name == "insert" and e.target == ("attr", c.heap, "insert")
-               and e.seq < c.loop.first_seq]
-        if not ins or not ins[0].loops:
-            raise AnalysisError("seeding loop not found")
-        return wk.loops[ins[0].loops[-1]].first_seq
-
-    sig_semi = loop_signature(comp, lo=seed_start(w, comp))
-    sig_sup = loop_signature(scomp, lo=seed_start(ws, scomp))
-    extra_sig = [s for s in sig_semi if s[0] == "store" and s[2] is not None and s[2].endswith(".label")
-                 and s[3] is not None and s[3].endswith(".predicted_label")]
-    reduced = [s for s in sig_semi if s not in extra_sig]
-    same = reduced == sig_sup and len(extra_sig) <= 1
+    from ..schema import competition_summary
+    a, b = competition_summary(comp), competition_summary(scomp)
+    extra_store = ("self.subgraph.nodes[q].label", "self.subgraph.nodes[q].predicted_label")
+    n_extra = 0
+    for site in a["sites"]:
+        n_extra += sum(1 for st in site["stores"] if st == extra_store)
+        site["stores"] = tuple(st for st in site["stores"] if st != extra_store)
+    same = a == b and n_extra <= 1
     detail = ""
     if not same:
-        diff = [s for s in reduced if s not in sig_sup] + [s for s in sig_sup if s not in reduced]
-        detail = "semi-supervised seeding/competition differs from SupervisedOPF.fit beyond the one listed statement: " \
-                 + "; ".join(f"{d[0]} {d[2]} <- {d[3]} {d[4]}"[:160] for d in diff[:3])
-    rep.fn("SEMI-sibling", fn, "seeding + competition are isomorphic to SupervisedOPF.fit up to one listed statement",
+        diffs = [k for k in a if a[k] != b.get(k)]
+        detail = ("semi-supervised seeding/competition makes different decisions than SupervisedOPF.fit beyond the "
+                  f"one listed statement; differing parts: {diffs}: "
+                  + "; ".join(f"{k}: {str(a[k])[:120]} vs {str(b.get(k))[:120]}" for k in diffs[:2]))
+    rep.fn("SEMI-sibling", fn, "seeding + competition are equivalent to SupervisedOPF.fit up to one listed statement",
            same, detail, line=comp.loop.line)
+    chk.note("sibling_summary_keys", sorted(a))
     # the unlabeled nodes must be identifiable rows of a pre-computed matrix (same rule as C10's K6)
     from .c10 import check_row_ids
     check_row_ids(chk, rep, repo, only={"SemiSupervisedOPF.fit"}, floor=1)
-    chk.note("signature_lengths", {"semi": len(sig_semi), "supervised": len(sig_sup)})
     chk.floor("competition loops reachable from SemiSupervisedOPF.fit", len(comps), 2)
     chk.undecided.append("optimality of the recorded costs (IFT theorem, as C01)")
